@@ -353,6 +353,25 @@ func (s *dvSim) expire(a, b int) bool {
 	return true
 }
 
+// expireMany: several neighbours of router a are found dead by ONE dead-neighbour sweep.
+func (s *dvSim) expireMany(a int, bs []int) bool {
+	A := s.nodes[a]
+	s.events = append(s.events, fmt.Sprintf("r%d expires %v in one sweep", a, bs))
+	A.r.VerifLocked(func() {
+		for _, b := range bs {
+			if ns := A.r.VerifNeighbors().Get(s.nodes[b].name); ns != nil {
+				dvtable.VerifSetLastSeen(ns, time.Now().Add(-24*time.Hour))
+			}
+		}
+	})
+	A.r.VerifCheckDeadNeighbors()
+	if !s.quiesce() {
+		return false
+	}
+	s.drain()
+	return true
+}
+
 type dvAdv struct {
 	cost, other uint64
 	next        string
